@@ -659,7 +659,7 @@ def main():
         run(chk, "thorough", 900)
     else:
         run(chk, "quick", 75)
-        if chk.broken() and not chk.spec_failures:
+        if (chk.broken() or chk.anchor_changed) and not chk.spec_failures:
             chk.notes.append("escalated: model search <= 4 threads + 4-thread state cover on the real lock")
             run(chk, "quick", 110, escalate=True)
     if chk.notes:
